@@ -236,7 +236,7 @@ def run_backup(job):
     return line
 
 
-def same_second_incremental(max_attempts=8, wanted=3):
+def same_second_incremental(max_attempts=6, wanted=2):
     """TLC's counterexample of MC_BackupDev_IncQuickCheck on the real code: a previous backup, then an object is added,
     packed and cleaned, then an incremental backup whose index dump falls into the same second as the previous one (rsync's
     quick check compares size and whole seconds).  Run alone (before the parallel part) so that the timing is reachable;
@@ -248,8 +248,11 @@ def same_second_incremental(max_attempts=8, wanted=3):
     table = contents()
     lines = []
     hits = 0
-    for attempt in range(max_attempts):
-        if hits >= wanted:
+    for attempt in range(max_attempts + 1):
+        # the last attempt does not depend on the load of the machine: the second dump is given the modification time of
+        # the first one (what "dumped within the same second" means to rsync), unless the timing was reached for real
+        emulate = attempt == max_attempts
+        if hits >= wanted or (emulate and hits > 0):
             break
         with common.scratch('bks') as work:
             folder = os.path.join(work, 'c')
@@ -259,8 +262,10 @@ def same_second_incremental(max_attempts=8, wanted=3):
             stamps = []
             real_dump = backup_utils._sqlite_backup  # pylint: disable=protected-access
 
-            def dump(src, dst, stamps=stamps, real_dump=real_dump):
+            def dump(src, dst, stamps=stamps, real_dump=real_dump, emulate=emulate):
                 out = real_dump(src, dst)
+                if emulate and stamps:
+                    os.utime(dst, (stamps[0], stamps[0]))
                 stamps.append(os.stat(dst).st_mtime)
                 return out
 
@@ -290,7 +295,7 @@ def same_second_incremental(max_attempts=8, wanted=3):
             hits += same
             line = {'script': 'same-second-incremental', 'placement': [], 'incremental': True, 'long_open_source': False,
                     'before': before + ['k6'], 'failed': bool(failed), 'error': failed, 'same_second': bool(same),
-                    'attempt': attempt}
+                    'attempt': attempt, 'same_second_emulated': bool(emulate)}
             if failed:
                 line.update(obs={'loose': [], 'rows': [], 'packs': []}, views=[], listed=[], val='n/a')
             else:
